@@ -524,3 +524,11 @@ Definition abs (s : bb) : sp :=
   {| s_mr := max_readers s; s_ty := map e_ty (entries s); s_val := map cell_load (entries s);
      s_gen := map e_wc (entries s); s_ws := map w_obj (writers s); s_hs := whs s;
      s_rs := readers s; s_xs := rhs s |}.
+
+(* names for extraction (extract/C12.v): unambiguous next to the identifiers of other models *)
+Definition bb_step := step.
+Definition bb_sp_new := sp_new.
+Definition bb_sp_step := sp_step.
+Definition bb_sp_digest_ok := sp_digest_ok.
+Definition bb_nwriters (s : bb) : nat := nwriters s.
+Definition bb_nreaders (s : bb) : nat := nreaders s.
